@@ -221,8 +221,15 @@ type mergeCase struct {
 	Tags     []string `json:"tags,omitempty"`
 }
 
+// universeHook, when set, adjusts the universe the merge cases are drawn from (C14 adds
+// deprecations, a specified scalar and a repeatable directive)
+var universeHook func([]*mDef) []*mDef
+
 func genMergeCase(r *rand.Rand, injectPct int) *mergeCase {
 	uni := mergeUniverse()
+	if universeHook != nil {
+		uni = universeHook(uni)
+	}
 	nsvc := 2 + r.Intn(3)
 	mc := &mergeCase{}
 	for i := 0; i < nsvc; i++ {
